@@ -367,6 +367,11 @@ func (vc *FnVC) siteAsserts(name string, ord int, pre *Mem, args []TV, pos token
 	if vc.ct == nil {
 		return
 	}
+	for _, nc := range vc.ct.NoCall {
+		if nc == name {
+			vc.oblige("assert", fmt.Sprintf("nocall@%s#%d", name, ord), vc.b(), "false", pos, "no reachable "+name+" in this function")
+		}
+	}
 	total := 0
 	for _, ca := range vc.ct.CallAssert {
 		if ca.Callee == name && (ca.Ordinal == 0 || ca.Ordinal == ord) {
